@@ -166,9 +166,9 @@ example : Confined (parserSys true) (· ∈ allowedCells writesOnParsePath) (fun
   subst hl
   exact parserStep_repaired_local g g' l (hg tableCell (by decide))
 
-/-- The repaired parser model, end to end: any number of concurrent parses, any
+/-- (An instance, true by construction of the model — not a claim about parser.go.) The repaired parser model, end to end: any number of concurrent parses, any
     schedule — every parse ends exactly as it ends alone; the table is unchanged. -/
-theorem repaired_parser_reentrant (s : State String Brace PLoc) (sched : List Nat) :
+example (s : State String Brace PLoc) (sched : List Nat) :
     (run (parserSys true) s sched).shared = s.shared ∧
     ∀ t, (run (parserSys true) s sched).locals t
         = (alone (parserSys true) t (sched.count t) s.shared (s.locals t)).2 :=
